@@ -228,6 +228,14 @@ class MoveAlgebra(common.Suite):
         r = a * n
         if self.snap(a) != sa:
             self.mutated.append("the operand of * changed")
+        # `x *= n` is `x = x * n`: the name is rebound to a NEW composite; whoever else holds the old object (an alias, a
+        # move's `.operation`, the list handed to a constructor) still has what it had
+        b = a
+        b *= n
+        if self.snap(a) != sa or (sa is not None and b is a):
+            self.mutated.append("the operand of *= changed")
+        if self.snap(b) != self.snap(r):
+            self.mutated.append("x *= n differs from x * n")
         return r
 
     def real(self, case):
